@@ -10,6 +10,7 @@ use super::{WireFormat, MAX_LABEL_LENGTH, MAX_NAME_LENGTH};
 
 const POINTER_MASK: u8 = 0b1100_0000;
 const POINTER_MASK_U16: u16 = 0b1100_0000_0000_0000;
+const MAX_POINTER_OFFSET: usize = 0b0011_1111_1111_1111;
 
 // NOTE: there are no extend labels implemented today
 // const EXTENDED_LABEL: u8 = 0b0100_0000;
@@ -147,7 +148,12 @@ impl<'a> Name<'a> {
                     return Ok(());
                 }
                 std::collections::hash_map::Entry::Vacant(e) => {
-                    e.insert(out.stream_position()? as usize);
+                    // a compression pointer holds a 14 bits offset, later positions can't be referenced
+                    let position = out.stream_position()? as usize;
+                    if position <= MAX_POINTER_OFFSET {
+                        e.insert(position);
+                    }
+
                     out.write_all(&[label.len() as u8])?;
                     out.write_all(&label.data)?;
                 }
